@@ -12,6 +12,10 @@
 #include "fiber_manager.h"
 #include "mpmc_lifo.h"
 
+// handed (as its "result") to a joiner that fiber_detach releases: the fiber can no
+// longer be joined, so that fiber_join must fail rather than report a result
+static char fiber_join_detached_marker;
+
 void fiber_mark_completed(fiber_t* the_fiber, void* result) {
   atomic_store_explicit(&the_fiber->result, result, memory_order_release);
 
@@ -142,10 +146,15 @@ int fiber_join(fiber_t* f, void** result) {
     fiber_manager_t* const manager = fiber_manager_get();
     fiber_t* const current_fiber = manager->current_fiber;
     fiber_manager_set_and_wait(manager, (void**)&f->join_info, current_fiber);
-    if (result) {
-      *result = current_fiber->result;
-    }
+    void* const joined_result = current_fiber->result;
     current_fiber->result = NULL;
+    if (joined_result == &fiber_join_detached_marker) {
+      // woken by fiber_detach, not by the fiber finishing
+      return FIBER_ERROR;
+    }
+    if (result) {
+      *result = joined_result;
+    }
   } else if (old_state == FIBER_DETACH_WAIT_FOR_JOINER) {
     // the other fiber is waiting for us to join
     if (result) {
@@ -213,6 +222,10 @@ int fiber_detach(fiber_t* f) {
     // convenience, pthreads specifies undefined behaviour in that case)
     fiber_t* const to_schedule = fiber_manager_clear_or_wait(
         fiber_manager_get(), (_Atomic(void*)*)&f->join_info);
+    if (old_state == FIBER_DETACH_WAIT_TO_JOIN) {
+      // a parked joiner: tell it the fiber was detached, its join must fail
+      to_schedule->result = &fiber_join_detached_marker;
+    }
     to_schedule->state = FIBER_STATE_READY;
     fiber_manager_schedule(fiber_manager_get(), to_schedule);
   } else if (old_state == FIBER_DETACH_DETACHED) {
